@@ -584,73 +584,89 @@ def typed_statements(tier):
     Not enumerated (known defect 3 of the f/g family, same code): first()/last() without GROUP BY time under ORDER BY time DESC."""
     th = tier == "thorough"
     out = []
+
+    def add(sel, p=None, r=None, gb=None, w=None, fill=None, desc=False, lim=None):
+        out.append(stmt(sel, p, r, gb, w, fill, desc, lim))
+
     # ---- plain selections
-    sels = ["s", "f,s", "s,i,b", "*", "f,host", "b"] + (["i", "s,host,region", "f,s,i,b", "i,b", "host"] if th else [])
-    preds = [None, "S1", "S2", "I1", "B1", "T1"] + (["S3", "I2", "B2", "TS"] if th else [])
-    for sel in sels:
-        for p in preds:
-            if not th and p == "T1" and sel not in ("s", "*"):
+    core = ["s", "f,s", "s,i,b", "*", "f,host", "b"]
+    extra = ["i", "s,host,region", "f,s,i,b", "i,b"] if th else []
+    preds = [None, "S1", "S2", "I1", "B1", "T1", "S3"] + (["I2", "B2", "TS"] if th else [])
+    for sel in core:
+        for k, p in enumerate(preds):
+            if not th and ((p == "T1" and sel not in ("s", "*")) or (p == "S3" and sel != "s")):
                 continue
-            rngs = [None, "Ub"] if (th or p in (None, "S2")) else [None]
-            for r in rngs:
-                if th:
-                    variants = [(None, False), (None, True), ((3, 2), False), ((3, 2), True), ((4, 0), True), ((2, 7), False)]
-                elif r is None and p is None:
-                    variants = [(None, False), (None, True), ((3, 2), False), ((4, 0), True)]
-                elif r is None:
-                    variants = [(None, False), ((3, 2), True)] if p in ("S1", "I1") else [(None, True), ((3, 2), False)]
-                else:
-                    variants = [(None, False), ((3, 2), True)]
-                for lim, desc in variants:
-                    out.append(stmt(sel, p, r, None, None, None, desc, lim))
-                if th or (r is None and p in (None, "I1")):
-                    for desc in (False, True):
-                        out.append(stmt(sel, p, r, "host", None, None, desc, None))
-                if th and r is None and p is None:
-                    out.append(stmt(sel, p, r, "region", None, None, False, None))
-    if not th:
-        out.append(stmt("host", None, None, None, None, None, False, None))
+            if p is None:
+                variants = [(None, False), (None, True), ((3, 2), False), ((4, 0), True)] + \
+                           ([((2, 7), False), ((3, 2), True)] if th else [])
+            elif k % 2 == 1:
+                variants = [(None, False), ((3, 2), True)]
+            else:
+                variants = [(None, True), ((3, 2), False)]
+            for lim, desc in variants:
+                add(sel, p, None, None, None, None, desc, lim)
+            if p in (None, "S2") or (th and p == "I1"):
+                add(sel, p, "Ub", None, None, None, False, None)
+                add(sel, p, "Ub", None, None, None, True, (3, 2))
+            if p in (None, "I1") or (th and p == "S2"):
+                for desc in (False, True):
+                    add(sel, p, None, "host", None, None, desc, None)
+            if th and p is None:
+                add(sel, p, None, "region", None, None, False, None)
+    for sel in extra:
+        own = {"i": "I1", "s": "S2", "f": "S1"}[sel[0]]
+        for p in (None, own):
+            add(sel, p, None, None, None, None, False, None)
+            add(sel, p, None, None, None, None, True, (3, 2))
+            add(sel, p, None, "host", None, None, p is not None, None)
+    add("host")                                   # tags only: empty answer
     # ---- calls overall / per tag group
     calls = ["%s(%s)" % (fn, fld) for fld in ("s", "b", "i") for fn in TYPED_CALLS[fld]] + MULTI_CALLS
     for c in calls:
         sel_fl = c.startswith("first(") or c.startswith("last(")
         own = {"s": "S2", "b": "B1", "i": "I1"}.get(c[-2], "S1")
         other = {"s": "I1", "b": "S2", "i": "B1"}.get(c[-2], "I1")
-        combos = [(None, None), (own, None), (other, None), (None, "Ud")]
-        if th:
-            combos += [("T1", None), ("S1", None), (None, "Ub"), (own, "Ub")]
+        combos = [(None, None), (own, None), (other, None), (None, "Ud")] + ([("T1", None), (None, "Ub")] if th else [])
         for p, r in combos:
-            for gb in (None, "host") + (("region",) if th else ()):
-                if not th and gb == "host" and (p, r) not in ((None, None), (other, None)):
-                    continue
-                for desc in (False, True):
-                    if desc and (sel_fl or (not th and (p, r) != (None, None))):
-                        continue
-                    out.append(stmt(c, p, r, gb, None, None, desc, None))
+            add(c, p, r)
+            if th or (p, r) in ((None, None), (other, None)):
+                add(c, p, r, "host")
+            if (p, r) == (None, None):
+                if th:
+                    add(c, p, r, "region")
+                if not sel_fl:
+                    add(c, p, r, None, None, None, True)
+                    add(c, p, r, "host", None, None, True)
+            if th and (p, r) == ("T1", None) and not sel_fl:
+                add(c, p, r, None, None, None, True)
     # ---- calls per epoch-aligned time bucket (always explicit time bounds)
     for c in calls:
         multi = "," in c
         int_result = c.startswith("count(") or (c[-2] == "i" and not c.startswith("mean("))
-        wf = [(10, None), (20, "none"), (10, "previous"), (30, None), (30, "0"), (20, "previous"), (10, "none"), (10, "0")] if th else \
-             [(10, None), (20, "none"), (10, "previous"), (30, "0")]
-        for w, fill in wf:
+        wf = [(10, None), (20, "none"), (10, "previous"), (30, "0")] + \
+             ([(30, None), (20, "previous"), (10, "none"), (10, "0")] if th else [])
+        seen_wf = set()
+        for k, (w, fill) in enumerate(wf):
             if fill == "0" and not int_result:
-                if th or multi:
-                    continue
-                fill = None                      # quick: the 30 s buckets with the default fill instead
+                fill = None                      # the same buckets with the default fill instead
             if multi and fill is not None:
                 continue
-            for r in (["Ua", "Ub", "Uc"] if th else ["Ua"]):
-                for p in ([None, "T1", "I1"] if th else [None]):
-                    if th and p is not None and r != "Ua":
-                        continue
-                    for gb in (None, "host"):
-                        for desc in (False, True):
-                            if desc and not th and not ((w, gb) in ((10, None), (20, "host"))):
-                                continue
-                            out.append(stmt(c, p, r, gb, w, fill, desc, None))
-        if not th and not multi:
-            out.append(stmt(c, "I1" if c[-2] != "i" else "S2", "Ua", None, 10, None, False, None))
+            if (w, fill) in seen_wf:
+                continue
+            seen_wf.add((w, fill))
+            for gb in (None, "host"):
+                add(c, None, "Ua", gb, w, fill)
+                if (w, gb) in ((10, None), (20, "host")) or (th and (w, gb) == (30, None)):
+                    add(c, None, "Ua", gb, w, fill, True)
+            if th and k < 2:
+                add(c, None, "Ub", None, w, fill)
+                add(c, None, "Ub", "host", w, fill, True)
+                add(c, None, "Uc", "host", w, fill)
+            if th and k in (0, 2) and not multi:
+                add(c, "T1", "Ua", None, w, fill)
+                add(c, "I1" if c[-2] != "i" else "S2", "Ua", "host", w, fill)
+        if not multi:
+            add(c, "I1" if c[-2] != "i" else "S2", "Ua", None, 10)
     seen, uniq = set(), []
     for s in out:
         k = json.dumps(s, sort_keys=True)
@@ -666,15 +682,16 @@ def statements_for(tier, ds):
 
 def groups(tier):
     """Data sets in the groups in which they are loaded and run (one group = one pass through all layout phases).
-    quick: one group = the three f/g data sets + the first two typed data sets.  thorough: the f/g data sets in threes, the
-    first six groups carry two typed data sets each (so the typed family is complete before a deadline can cut)."""
+    quick: one group = the three f/g data sets + the first two typed data sets.
+    thorough: that group first, then the other ten typed data sets in two groups, then the other f/g data sets in threes
+    (a deadline cuts groups from the end)."""
     fg = datasets(tier)
     ty = typed_datasets()
     if tier != "thorough":
         return [fg + ty[:2]]
-    out = []
-    for gi in range(0, len(fg), 3):
-        out.append(fg[gi:gi + 3] + ty[(gi // 3) * 2:(gi // 3) * 2 + 2])
+    out = [fg[:3] + ty[:2], ty[2:7], ty[7:]]
+    for gi in range(3, len(fg), 3):
+        out.append(fg[gi:gi + 3])
     return out
 
 
@@ -876,10 +893,11 @@ def nonempty(exp):
 ANY = ("<any>",)
 
 
-def relaxed_fill_expectation(ds, st):
+def relaxed_fill_expectation(ds, st, or_null=False, **opts):
     """Expected answer of a GROUP BY time statement in which the value of every EMPTY bucket is a wildcard (used only to
-    recognise the known fill(previous) defects: everything except the filled-in cells must still be right)."""
-    full = evaluate(ds, st)
+    recognise the known fill(previous) defects: everything except the filled-in cells must still be right).
+    or_null: an empty bucket holds the right fill value or null (the previous value was forgotten), nothing else."""
+    full = evaluate(ds, st, **opts)
     st1 = dict(st)
     st1["fill"] = "none"
     nonempty_ = {json.dumps(e["tags"], sort_keys=True): set(t for t, _, _ in e["groups"]) for e in evaluate(ds, st1)}
@@ -887,8 +905,20 @@ def relaxed_fill_expectation(ds, st):
     for e in full:
         ne = nonempty_.get(json.dumps(e["tags"], sort_keys=True), set())
         out.append({"tags": e["tags"], "columns": e["columns"],
-                    "groups": [(t, c if t in ne else [(ANY,)], n) for t, c, n in e["groups"]]})
+                    "groups": [(t, c if t in ne else ([(ANY,)] if not or_null else list(c) + [(None,)]), n)
+                               for t, c, n in e["groups"]]})
     return out
+
+
+def call_field_type(ds, st):
+    """'string' | 'boolean' | 'integer' | 'float' of the field of a single-call statement."""
+    fld = _call_field(st)
+    for _, _, _, v in ds.rows():
+        if v.get(fld) is not None:
+            x = v[fld]
+            return "boolean" if isinstance(x, bool) else "string" if isinstance(x, str) else \
+                "integer" if isinstance(x, int) else "float"
+    return None
 
 
 def rows_not_in_unlimited_answer(ans, ds, st):
